@@ -93,6 +93,32 @@ WRAPFLAGS_PROC := $(foreach s,$(WRAP_PROC),-Wl,--wrap=$(s))
 $(B)/sim_proc: $(B)/asan/sim_proc.o $(B)/asan/librepo.a $(BUILD)/fw/vsim.o $(BUILD)/fw/vsim-child
 	$(CXX) $(ASAN) $(WRAPFLAGS_PROC) $(B)/asan/sim_proc.o $(B)/asan/librepo.a $(BUILD)/fw/vsim.o -lz -lpthread -o $@
 
+# ---- coverage builds (diagnostic only: tools/coverage.sh); no sanitizers
+COV := -fprofile-instr-generate -fcoverage-mapping
+LIBOBJS_COV := $(patsubst src/%.cc,$(B)/cov/lib/%.o,$(LIBSRCS))
+$(B)/cov/lib/%.o: $(REPO)/src/%.cc
+	@mkdir -p $(dir $@)
+	$(CXX) $(STD) -O0 -g $(COV) -w -I$(REPO)/src -c $< -o $@
+$(B)/cov/librepo.a: $(LIBOBJS_COV)
+	@rm -f $@
+	ar rcs $@ $^
+$(B)/cov/vfs.o: $(ROOT)vsim/vfs.cc $(ROOT)vsim/vfs.hh $(ROOT)vsim/vsim.hh
+	@mkdir -p $(dir $@)
+	$(CXX) $(STD) -O1 -g $(WARN) -I$(ROOT)vsim -c $< -o $@
+$(B)/cov/%.o: $(ROOT)engines/%.cc $(wildcard $(ROOT)vsim/*.hh) $(wildcard $(REPO)/src/*.hh)
+	@mkdir -p $(dir $@)
+	$(CXX) $(STD) -O0 -g $(COV) $(WARN) -Wno-unused-function -I$(ROOT)vsim -I$(ROOT)engines -I$(REPO)/src -c $< -o $@
+$(B)/sim_fs_cov: $(B)/cov/sim_fs.o $(B)/cov/vfs.o $(B)/cov/librepo.a $(BUILD)/fw/vsim.o
+	$(CXX) $(COV) $(WRAPFLAGS_VFS) $^ -lz -lpthread -o $@
+$(B)/sim_rand_cov: $(B)/cov/sim_rand.o $(B)/cov/vfs.o $(B)/cov/librepo.a $(BUILD)/fw/vsim.o
+	$(CXX) $(COV) $(WRAPFLAGS_VFS) $^ -lz -lpthread -o $@
+$(B)/sim_image_cov: $(B)/cov/sim_image.o $(B)/cov/vfs.o $(B)/cov/librepo.a $(BUILD)/fw/vsim.o
+	$(CXX) $(COV) $(WRAPFLAGS_VFS) $^ -lz -lpthread -o $@
+$(B)/sim_par_cov: $(B)/cov/sim_par.o $(B)/cov/librepo.a $(BUILD)/fw/vpar.o $(BUILD)/fw/vsim.o
+	$(CXX) $(COV) $^ -lz -lpthread -o $@
+$(B)/sim_proc_cov: $(B)/cov/sim_proc.o $(B)/cov/librepo.a $(BUILD)/fw/vsim.o $(BUILD)/fw/vsim-child
+	$(CXX) $(COV) $(WRAPFLAGS_PROC) $(B)/cov/sim_proc.o $(B)/cov/librepo.a $(BUILD)/fw/vsim.o -lz -lpthread -o $@
+
 engine: $(B)/$(E)
 
 clean:
